@@ -4,6 +4,7 @@ import (
 	"fmt"
 	"go/types"
 	"strconv"
+	"strings"
 
 	"golang.org/x/tools/go/ssa"
 	"verif/engine/smt"
@@ -231,6 +232,22 @@ func (i *interpreter) callVX(fr *frame, fn *ssa.Function, args []value) value {
 		return nil
 	case "FrozenWrites":
 		return i.frozenCount
+	case "SharedWrites":
+		return i.ps.sharedWrites
+	case "FreezeGlobals":
+		// freeze everything reachable from the package-level variables of tobgu/qframe
+		seen := map[interface{}]bool{}
+		for g, cell := range i.globals {
+			if g.Pkg == nil || !strings.Contains(g.Pkg.Pkg.Path(), "tobgu/qframe") || strings.HasSuffix(g.Pkg.Pkg.Path(), "/internal/vx") || strings.HasSuffix(g.Pkg.Pkg.Path(), "/internal/vxsql") {
+				continue
+			}
+			if strings.HasPrefix(g.Name(), "vx") || strings.HasPrefix(g.Name(), "c10") || strings.HasPrefix(g.Name(), "c14") || strings.HasPrefix(g.Name(), "init$") {
+				continue // harness globals
+			}
+			i.freezeWalk(cell, "package-level "+g.String(), seen)
+		}
+		i.ps.frozenOn = true
+		return nil
 	case "ParamStr":
 		return i.param(i.concString(args[0]))
 	case "ParamInt":
